@@ -16,6 +16,9 @@ func (x *Exec) libCall2(s *State, site ssa.Instruction, fn *ssa.Function, name s
 		}
 		return Var(x.siteTag(site)+".arg", SString)
 	}
+	if x.libFS(s, site, fn, name, args, k) {
+		return true
+	}
 	res := fn.Signature.Results()
 	// (value, error) results where the value is an interface or pointer that
 	// is non-nil exactly when the error is nil
@@ -35,7 +38,7 @@ func (x *Exec) libCall2(s *State, site ssa.Instruction, fn *ssa.Function, name s
 		k(s, &TupleV{E: []Val{v, e}})
 	}
 	switch name {
-	case "os.Lstat", "os.Stat", "(*os.File).Stat", "os.Open", "os.OpenFile", "os.Create", "compress/gzip.NewReader":
+	case "(*os.File).Stat", "compress/gzip.NewReader":
 		x.used(name + ": returns a non-nil value exactly when the error is nil")
 		valueOrError()
 		return true
@@ -52,7 +55,7 @@ func (x *Exec) libCall2(s *State, site ssa.Instruction, fn *ssa.Function, name s
 		x.used(name)
 		k(s, x.freshResult(s, site, res))
 		return true
-	case "(*os.File).Close", "(*os.File).Seek", "(*os.File).WriteString", "(*os.File).Write", "os.Rename", "os.Remove", "os.IsNotExist", "os.ReadFile", "os.Getpid":
+	case "(*os.File).Seek", "os.ReadFile", "os.Getpid":
 		x.used(name + " (no effect on verified state)")
 		k(s, x.freshResult(s, site, res))
 		return true
